@@ -51,6 +51,13 @@ def cells(tier):
         # a worker that absorbed an individual cancellation earlier is still reached by the group cancellation
         sc = scen(pool(size), [[A("G", 2, name="gname", worker="absorb")], H["A2"], [cancel(rid("G", 0))], [cgroup("G")]], outcomes=["ret"], ecb="plain", ccb="plain")
         out.append(cell(f"s{size} G=A2 absorb H=A2 cancelG0 cgroup", sc, MON))
+    # the pool is shrunk below its occupancy before the group cancellation and grown again after it (H: a map waiting on
+    # its own slot while its task sits in a slow end callback; G: a spawner that was just handed the freed room)
+    for seq in [(0, 1), (1, 2), (0, "inf")]:
+        sc = scen(pool(2), [[A("X", 1), M("H", 2, 1), A("G", 1, name="gname")],
+                            [["set_size", seq[0]], cgroup("G"), ["set_size", seq[1]]]],
+                  outcomes=["ret"], ecb="slow", ccb="plain", slow_ids=[0])
+        out.append(cell(f"s2 X1,H=M2/1,G=A1 size{seq[0]},cgroupG,size{seq[1]} slowecb(X) (resized)", sc, MON))
     sc = scen(pool(2, "SimpleTaskPool", worker="absorb", ecb="plain", ccb="plain"), [[S("G", 2)], [["stop", 1]], [CALL]], outcomes=["ret"])
     out.append(cell("simple s2 G=S2 absorb stop1 call", sc, MON))
     sc = scen(pool(2, "SimpleTaskPool", ecb="plain", ccb="plain"), [[S("G", 3)], [S("H", 2)], [cgroup("G")]], outcomes=["ret"])
